@@ -41,7 +41,7 @@ def verify(src, prop, name):
         r = sh(f"cd {WT} && /venv/bin/python {demo}")
         ran["demo_patched_rc"] = r.returncode
         ran["demo_patched_tail"] = (r.stdout + r.stderr)[-400:]
-        r = sh(f"python3 /tmp/baseline_wt.py {WT}")
+        r = sh(f"python3 {VERIF}/tools/baseline_wt.py {WT}")
         ran["baseline_rc"] = r.returncode
         ran["baseline_tail"] = r.stdout[-300:]
         ok = ran["demo_clean_rc"] == 0 and ran["demo_patched_rc"] != 0 and ran["baseline_rc"] == 0 and "pipefunc imported from: " + WT in r.stdout
